@@ -381,7 +381,13 @@ func checkC19(P *Program, r *Result, tier string) {
 		ok := false
 		for _, c := range callsIn(fn) {
 			if cal := c.Common().StaticCallee(); cal != nil && cal.Name() == "Reset" && fnPkgPath(cal) == "bytes" && bufField(fn, c.Common().Args[0]) {
+				// on every path: each return is dominated by the call
 				ok = true
+				for _, ret := range returnsOf(fn) {
+					if !instrDominates(c.(*ssa.Call), ret) {
+						ok = false
+					}
+				}
 			}
 		}
 		retNil := true
@@ -390,7 +396,7 @@ func checkC19(P *Program, r *Result, tier string) {
 				retNil = false
 			}
 		}
-		r.add("DELEGATE", shortName(fn), "call", "Close resets the underlying buffer and returns nil", P.pos(fn.Pos()), ok && retNil, "")
+		r.add("DELEGATE", shortName(fn), "call", "Close resets the underlying buffer on every path and returns nil", P.pos(fn.Pos()), ok && retNil, "")
 	}
 	// REMAINING
 	if fn := P.Method(rel, "defaultTransport", "RemainingBytes"); r.require("defaultTransport.RemainingBytes", fn != nil) {
@@ -713,64 +719,7 @@ func checkC18(P *Program, r *Result, tier string) {
 		}
 		r.add("PREPEND", shortName(fn), "return", "plain error ⇒ errors.New(prepend+err.Error()) after all assertions failed", P.pos(fn.Pos()), good, "")
 	}
-	// WRAP
-	if fn := P.Func(rel, "NewProtocolExceptionWithErr"); r.require("thrift.NewProtocolExceptionWithErr", fn != nil) {
-		errp := ssa.Value(fn.Params[0])
-		var ta *ssa.TypeAssert
-		for _, b := range fn.Blocks {
-			for _, in := range b.Instrs {
-				if x, ok := in.(*ssa.TypeAssert); ok && x.X == errp && x.CommaOk && typeIsPtrTo(x.AssertedType, "ProtocolException") {
-					ta = x
-				}
-			}
-		}
-		idOK, wrapOK := false, false
-		detail := ""
-		if ta == nil {
-			detail = "no direct comma-ok assertion of the argument to *ProtocolException"
-		} else {
-			var val, okv ssa.Value
-			for _, ref := range *ta.Referrers() {
-				if ex, ok := ref.(*ssa.Extract); ok {
-					if ex.Index == 0 {
-						val = ex
-					} else {
-						okv = ex
-					}
-				}
-			}
-			for _, ret := range returnsOf(fn) {
-				if ret.Results[0] == val && okv != nil && guardedBy(ret, okv, true) {
-					idOK = true
-				}
-				if okv != nil && guardedBy(ret, okv, false) {
-					// new exception whose err field holds the argument
-					var obj ssa.Value
-					if c := staticCallNamed(ret.Results[0], "NewProtocolException"); c != nil {
-						obj = c
-					} else if al, isAl := ret.Results[0].(*ssa.Alloc); isAl && typeIsPtrTo(al.Type(), "ProtocolException") {
-						obj = al
-					}
-					if obj != nil && obj.Referrers() != nil {
-						for _, ref := range *obj.Referrers() {
-							if fa, ok := ref.(*ssa.FieldAddr); ok {
-								st := deref(fa.X.Type()).Underlying().(*types.Struct)
-								if st.Field(fa.Field).Name() == "err" {
-									for _, r2 := range *fa.Referrers() {
-										if s, ok := r2.(*ssa.Store); ok && s.Val == errp && instrDominates(s, ret) {
-											wrapOK = true
-										}
-									}
-								}
-							}
-						}
-					}
-				}
-			}
-		}
-		r.add("WRAP", shortName(fn), "return", "identity on errors that already are *ProtocolException", P.pos(fn.Pos()), idOK, detail)
-		r.add("WRAP", shortName(fn), "return", "otherwise the argument is stored in the wrapped-cause field of a new protocol exception", P.pos(fn.Pos()), wrapOK, detail)
-	}
+	wrapHelperRule(P, r, rel)
 	if fn := P.Method(rel, "ProtocolException", "Unwrap"); r.require("ProtocolException.Unwrap", fn != nil) {
 		ok := false
 		if ret := singleReturn(fn); ret != nil {
@@ -842,4 +791,68 @@ func init() {
 	register("C18", "other", checkC18)
 	register("C19", "other", checkC19)
 	register("C20", "proof", checkC20)
+}
+
+// wrapHelperRule: NewProtocolExceptionWithErr returns a *ProtocolException
+// argument itself and wraps everything else keeping the argument as the cause
+// (shared by C18 and C17: the stream reader's errors all pass through it).
+func wrapHelperRule(P *Program, r *Result, rel string) {
+	// WRAP
+	if fn := P.Func(rel, "NewProtocolExceptionWithErr"); r.require("thrift.NewProtocolExceptionWithErr", fn != nil) {
+		errp := ssa.Value(fn.Params[0])
+		var ta *ssa.TypeAssert
+		for _, b := range fn.Blocks {
+			for _, in := range b.Instrs {
+				if x, ok := in.(*ssa.TypeAssert); ok && x.X == errp && x.CommaOk && typeIsPtrTo(x.AssertedType, "ProtocolException") {
+					ta = x
+				}
+			}
+		}
+		idOK, wrapOK := false, false
+		detail := ""
+		if ta == nil {
+			detail = "no direct comma-ok assertion of the argument to *ProtocolException"
+		} else {
+			var val, okv ssa.Value
+			for _, ref := range *ta.Referrers() {
+				if ex, ok := ref.(*ssa.Extract); ok {
+					if ex.Index == 0 {
+						val = ex
+					} else {
+						okv = ex
+					}
+				}
+			}
+			for _, ret := range returnsOf(fn) {
+				if ret.Results[0] == val && okv != nil && guardedBy(ret, okv, true) {
+					idOK = true
+				}
+				if okv != nil && guardedBy(ret, okv, false) {
+					// new exception whose err field holds the argument
+					var obj ssa.Value
+					if c := staticCallNamed(ret.Results[0], "NewProtocolException"); c != nil {
+						obj = c
+					} else if al, isAl := ret.Results[0].(*ssa.Alloc); isAl && typeIsPtrTo(al.Type(), "ProtocolException") {
+						obj = al
+					}
+					if obj != nil && obj.Referrers() != nil {
+						for _, ref := range *obj.Referrers() {
+							if fa, ok := ref.(*ssa.FieldAddr); ok {
+								st := deref(fa.X.Type()).Underlying().(*types.Struct)
+								if st.Field(fa.Field).Name() == "err" {
+									for _, r2 := range *fa.Referrers() {
+										if s, ok := r2.(*ssa.Store); ok && s.Val == errp && instrDominates(s, ret) {
+											wrapOK = true
+										}
+									}
+								}
+							}
+						}
+					}
+				}
+			}
+		}
+		r.add("WRAP", shortName(fn), "return", "identity on errors that already are *ProtocolException", P.pos(fn.Pos()), idOK, detail)
+		r.add("WRAP", shortName(fn), "return", "otherwise the argument is stored in the wrapped-cause field of a new protocol exception", P.pos(fn.Pos()), wrapOK, detail)
+	}
 }
